@@ -1,5 +1,7 @@
 import AidlVerif.Props.ParseTerm
 import AidlVerif.Props.C01
+import AidlVerif.Props.C17
+import AidlVerif.Props.DiagCtx
 
 /-!
 # C01 end to end (model): for every set of texts, parsing and validating returns
@@ -12,15 +14,16 @@ results of the model's `add_content`, for every set of files, every hash order.
 -/
 
 namespace Aidl.Props.PipelineTotal
-open Aidl Aidl.Lr Aidl.Actions Aidl.Props.Typed Aidl.Props.LrInv
+open Aidl Aidl.Lr Aidl.Actions Aidl.Props.Typed Aidl.Props.LrInv Aidl.Spec Aidl.Spec.C17
 
-theorem tyArity_eq (t : Ty) : tyArity t = C01.arityOk t := by
-  unfold tyArity C01.arityOk
-  cases t.kind <;> rfl
+theorem tyArity_imp (t : Ty) (h : tyArity t = true) : C01.arityOk t = true := by
+  unfold tyArity at h
+  unfold C01.arityOk
+  cases hk : t.kind <;> simp only [hk] at h ⊢ <;> first | exact h | rfl
 
 theorem itemWF_arityOK (a : AidlFile) (h : ItemWF a.item) : C01.ArityOK a := by
   intro t ht
-  rw [← tyArity_eq]
+  apply tyArity_imp
   unfold allTypesWalk topTypes at ht
   obtain ⟨top, htop, htw⟩ := List.mem_flatMap.mp ht
   cases hi : a.item with
@@ -36,6 +39,37 @@ theorem itemWF_arityOK (a : AidlFile) (h : ItemWF a.item) : C01.ArityOK a := by
     rw [hi] at htop
     cases htop
 
+/-- the types of a tree with `ItemWF` carry no `Resolved` kind, at any depth -/
+theorem itemWF_unresolved (a : AidlFile) (h : ItemWF a.item) (t : Ty) (ht : t ∈ allTypesPre a) (k : String) (rk : RKind) :
+    t.kind ≠ .resolved k rk := by
+  have ht := mem_allTypesWalk_of_pre a t ht
+  unfold allTypesWalk topTypes at ht
+  obtain ⟨top, htop, htw⟩ := List.mem_flatMap.mp ht
+  have hA : tyArity t = true := by
+    cases hi : a.item with
+    | interface i =>
+      rw [hi] at htop h
+      obtain ⟨e, he, het⟩ := List.mem_flatMap.mp htop
+      exact h e he top het t htw
+    | parcelable p =>
+      rw [hi] at htop h
+      obtain ⟨e, he, het⟩ := List.mem_flatMap.mp htop
+      exact h e he top het t htw
+    | «enum» e =>
+      rw [hi] at htop
+      cases htop
+  intro hk
+  unfold tyArity at hA
+  rw [hk] at hA
+  cases hA
+
+/-- **For every text**: no type of a tree the parser returns is `Resolved` — the hypothesis
+    `hparser` of `C17.resolved_to_item` holds of every parser output. -/
+theorem parser_never_resolves (env : Env) (id text : String) (hE : EnvOk env text.toList) (fr : FileResult) (a : AidlFile)
+    (h : addContentE Driver.Parse.tables env id text = .ok fr) (ha : fr.ast = some a) :
+    ∀ t ∈ allTypesPre a, ∀ k rk, t.kind ≠ .resolved k rk :=
+  fun t ht k rk => itemWF_unresolved a (ParseTyped.tree_arities env id text hE fr a h ha) t ht k rk
+
 /-- **Parsing then validating never panics (model, tables of this run)**: for every list of files
     whose entries are results of the model's `add_content` on ANY texts (with a line/column lookup
     defined on the character boundaries), and every hash order, `validate` returns. -/
@@ -46,6 +80,48 @@ theorem parse_then_validate_total (ho : HashOrder) (frs : List FileResult)
   intro fr hfr a ha
   obtain ⟨env, id, text, hE, hp⟩ := h fr hfr
   exact itemWF_arityOK a (ParseTyped.tree_arities env id text hE fr a hp ha)
+
+/-- **C17 without a hypothesis on the tree**: in the validation of a tree the parser returned for
+    ANY text, a type node whose kind is an item kind with key `k` comes with a file of the project
+    whose key is `k` and whose item symbol has that qualified name. -/
+theorem resolved_to_item_of_parsed (ho : HashOrder) (files : List FileResult)
+    (env : Env) (id text : String) (hE : EnvOk env text.toList) (fr0 : FileResult) (ast : AidlFile)
+    (hparse : addContentE Driver.Parse.tables env id text = .ok fr0) (hast : fr0.ast = some ast)
+    (syn : List Diag) (g : Groups)
+    (hg : validateGroups ho (collectItemKeys (ho.ord files)) syn ast = .ok g)
+    (n : String × Range × TypeKind) (hn : n ∈ Spec.C05.nodes g.ast) (k : String) (rk : RKind)
+    (hkind : n.2.2 = .resolved k rk) (hitem : isItemKind rk = true) :
+    ∃ fr ∈ files, ∃ a, fr.ast = some a ∧ a.key = k ∧ (itemSymbol a).qualifiedName = some k :=
+  C17.resolved_to_item ho files syn ast g hg
+    (fun t ht => Or.inr (parser_never_resolves env id text hE fr0 ast hparse hast t ht)) n hn k rk hkind hitem
+
+/-- the diagnostics of every parser output carry syntax-stage context messages -/
+theorem parsed_synCtx (env : Env) (id text : String) (hE : EnvOk env text.toList) (fr : FileResult)
+    (h : addContentE Driver.Parse.tables env id text = .ok fr) : DiagCtx.CtxIn DiagCtx.synCtxs fr.diags := by
+  intro d hd
+  have := (ParseTotal.diag_positions_good env id text hE fr h d hd).2.2
+  simp only [synCtx, Bool.or_eq_true, beq_iff_eq] at this
+  simp only [DiagCtx.synCtxs, List.mem_cons, List.not_mem_nil, or_false]
+  rcases this with (((h1 | h1) | h1) | h1) | h1 <;> simp [h1]
+
+/-- **C05 without `Fresh`**: for a file parsed from ANY text, validated in any project and hash
+    order, every type reference carries the kind the scoping rule prescribes, each unresolved one
+    has exactly one 'unknown type' Error on its name, and there is no other such Error. -/
+theorem C05_holds_of_parsed (ho : HashOrder) (defined : Defined) (fr out : FileResult)
+    (hp : ∃ env id text, EnvOk env text.toList ∧ addContentE Driver.Parse.tables env id text = .ok fr)
+    (h : validateFile ho defined fr = .ok out) : Spec.C05.holdsFile defined fr out = true := by
+  obtain ⟨env, id, text, hE, hfr⟩ := hp
+  exact Props.C05.holds ho defined fr out h
+    (fun ast g _ hg => DiagCtx.fresh_C05 hg (parsed_synCtx env id text hE fr hfr))
+
+/-- **C08 without `Fresh`**: likewise the container diagnostics are exactly what the element rules
+    call for on the validated tree. -/
+theorem C08_holds_of_parsed (ho : HashOrder) (defined : Defined) (fr out : FileResult)
+    (hp : ∃ env id text, EnvOk env text.toList ∧ addContentE Driver.Parse.tables env id text = .ok fr)
+    (h : validateFile ho defined fr = .ok out) : Spec.C08.holdsFile out = true := by
+  obtain ⟨env, id, text, hE, hfr⟩ := hp
+  exact Props.C08.holds ho defined fr out h
+    (fun ast g _ hg => DiagCtx.fresh_C08 hg (parsed_synCtx env id text hE fr hfr))
 
 /-- …and such results exist for every text (`addContent_total`) -/
 theorem every_text_has_a_result (env : Env) (id text : String) (hE : EnvOk env text.toList) :
